@@ -16,13 +16,18 @@
 (*   - non-spherical shapes are admitted only with bulk / dislocation        *)
 (*     sites (validate() refuses the other combinations: such setter calls  *)
 (*     are not enabled here and are not made by the driver).                *)
+(* One or two precipitate phases (inp.np): the per-phase setters address a   *)
+(* phase by NAME (no name = the first phase, as documented), and what is      *)
+(* derived for one phase depends on the global inputs and on that phase's own *)
+(* inputs only (PhaseIsolation).                                              *)
 (* Mode = "stale-gb": setup() does not hand the grain boundary energy over   *)
 (* again (the defect repaired in a638ab0's neighbourhood, kept as negative   *)
 (* control).                                                                *)
 (***************************************************************************)
 EXTENDS Integers, Sequences, FiniteSets, TLC
-CONSTANTS VmAs, VmBs, Gammas, Sites, Gbes, Grains, Disls, X0s, Bulks, Shapes, MaxOps, Mode
-VARIABLES inp,      \* record of the inputs supplied last
+CONSTANTS VmAs, VmBs, Gammas, Sites, Gbes, Grains, Disls, X0s, Bulks, Shapes, NPs, MaxOps, Mode,
+          Starts      \* the configurations histories start from (a set of input records; {} = every admissible record)
+VARIABLES inp,      \* record of the inputs supplied last (fields of the second phase carry the suffix 2; inp.np = number of phases)
           der,      \* record of derived data (stamps) the model holds; refreshed by Setup
           fresh,    \* TRUE iff no setter was called since the last Setup
           nops
@@ -30,42 +35,59 @@ vars == <<inp, der, fresh, nops>>
 
 GBSites == {"grain boundaries", "grain edges", "grain corners"}
 Admissible(site, shape) == shape = "sphere" \/ site \notin GBSites
+(* the inputs of phase k *)
+Ph(i, k) == IF k = 1 THEN [vmB |-> i.vmB, gamma |-> i.gamma, site |-> i.site, shape |-> i.shape]
+                     ELSE [vmB |-> i.vmB2, gamma |-> i.gamma2, site |-> i.site2, shape |-> i.shape2]
+AllAdmissible(i) == Admissible(i.site, i.shape) /\ (i.np = 2 => Admissible(i.site2, i.shape2))
 
 (* dependency sets: which inputs a derived datum is a function of *)
-PoolOf(i) == CASE i.site = "bulk" -> IF i.bulk = "auto" THEN <<"bulk", "auto", i.x0, i.vmA>> ELSE <<"bulk", "user", i.bulk>>
-               [] i.site = "dislocations" -> <<"disl", i.vmA, i.disl>>
-               [] i.site = "grain boundaries" -> <<"gbarea", i.vmA, i.grain>>
-               [] i.site = "grain edges" -> <<"gbedge", i.vmA, i.grain>>
-               [] i.site = "grain corners" -> <<"gbcorner", i.grain>>
-FactorsOf(i, gbe) == IF i.site \in GBSites THEN <<i.site, i.gamma, gbe>> ELSE <<"spherical nucleus">>
-GibbsOf(i) == <<i.gamma, i.vmB, i.shape>>
-Compute(i, gbe) == [pool |-> PoolOf(i), factors |-> FactorsOf(i, gbe), gibbs |-> GibbsOf(i), x |-> <<i.x0>>, gbe |-> gbe]
+PoolOf(i, k) == LET s == Ph(i, k).site IN
+                CASE s = "bulk" -> IF i.bulk = "auto" THEN <<"bulk", "auto", i.x0, i.vmA>> ELSE <<"bulk", "user", i.bulk>>
+                  [] s = "dislocations" -> <<"disl", i.vmA, i.disl>>
+                  [] s = "grain boundaries" -> <<"gbarea", i.vmA, i.grain>>
+                  [] s = "grain edges" -> <<"gbedge", i.vmA, i.grain>>
+                  [] s = "grain corners" -> <<"gbcorner", i.grain>>
+FactorsOf(i, k, gbe) == IF Ph(i, k).site \in GBSites THEN <<Ph(i, k).site, Ph(i, k).gamma, gbe>> ELSE <<"spherical nucleus">>
+GibbsOf(i, k) == <<Ph(i, k).gamma, Ph(i, k).vmB, Ph(i, k).shape>>
+Absent == <<"absent">>
+Compute(i, gbe) == [pool |-> PoolOf(i, 1), factors |-> FactorsOf(i, 1, gbe), gibbs |-> GibbsOf(i, 1), x |-> <<i.x0>>, gbe |-> gbe,
+                    pool2 |-> IF i.np = 2 THEN PoolOf(i, 2) ELSE Absent, factors2 |-> IF i.np = 2 THEN FactorsOf(i, 2, gbe) ELSE Absent,
+                    gibbs2 |-> IF i.np = 2 THEN GibbsOf(i, 2) ELSE Absent]
 
-Init == /\ inp \in [vmA : VmAs, vmB : VmBs, gamma : Gammas, site : Sites, gbe : Gbes, grain : Grains, disl : Disls, x0 : X0s, bulk : Bulks, shape : Shapes]
-        /\ Admissible(inp.site, inp.shape)
+Init == /\ inp \in [vmA : VmAs, vmB : VmBs, gamma : Gammas, site : Sites, gbe : Gbes, grain : Grains, disl : Disls, x0 : X0s, bulk : Bulks, shape : Shapes,
+                    vmB2 : VmBs, gamma2 : Gammas, site2 : Sites, shape2 : Shapes, np : NPs]
+        /\ (Starts # {} => inp \in Starts)
+        /\ AllAdmissible(inp)
+        /\ (inp.np = 1 => inp.vmB2 = inp.vmB /\ inp.gamma2 = inp.gamma /\ inp.site2 = "bulk" /\ inp.shape2 = "sphere")     \* (unused fields: one representative)
         /\ der = Compute(inp, inp.gbe) /\ fresh = TRUE /\ nops = 0
 
-Set(field, v) == /\ inp' = [inp EXCEPT ![field] = v]
-                 /\ Admissible(inp'.site, inp'.shape)
+PhaseTwoFields == {"vmB2", "gamma2", "site2", "shape2"}
+Set(field, v) == /\ (field \in PhaseTwoFields => inp.np = 2)
+                 /\ inp' = [inp EXCEPT ![field] = v]
+                 /\ AllAdmissible(inp')
                  /\ fresh' = FALSE /\ UNCHANGED der
 (* (a user-defined bulk density cannot be withdrawn: setNucleationDensity(bulkN0 = None) keeps it, see SitePools UserBulkKept) *)
 (* reset() + setup(): every derived datum is recomputed from the inputs in force *)
 Setup == /\ der' = Compute(inp, IF Mode = "stale-gb" THEN der.gbe ELSE inp.gbe)
          /\ fresh' = TRUE /\ UNCHANGED inp
 Next == /\ nops < MaxOps /\ nops' = nops + 1
-        /\ \/ (\E v \in VmAs : Set("vmA", v)) \/ (\E v \in VmBs : Set("vmB", v))
-           \/ (\E v \in Gammas : Set("gamma", v)) \/ (\E v \in Sites : Set("site", v))
+        /\ \/ (\E v \in VmAs : Set("vmA", v)) \/ (\E v \in VmBs : Set("vmB", v) \/ Set("vmB2", v))
+           \/ (\E v \in Gammas : Set("gamma", v) \/ Set("gamma2", v)) \/ (\E v \in Sites : Set("site", v) \/ Set("site2", v))
            \/ (\E v \in Gbes : Set("gbe", v)) \/ (\E v \in Grains : Set("grain", v))
            \/ (\E v \in Disls : Set("disl", v)) \/ (\E v \in X0s : Set("x0", v))
-           \/ (\E v \in Bulks \ {"auto"} : Set("bulk", v)) \/ (\E v \in Shapes : Set("shape", v))
+           \/ (\E v \in Bulks \ {"auto"} : Set("bulk", v)) \/ (\E v \in Shapes : Set("shape", v) \/ Set("shape2", v))
            \/ Setup
 Spec == Init /\ [][Next]_vars
 
 (* after a setup the model works with the data of the inputs in force, whatever the order and number of setter calls before *)
 SetupIsCurrent == fresh => der = Compute(inp, inp.gbe)
 (* the configuration the model holds is always one validate() admits *)
-AlwaysAdmissible == Admissible(inp.site, inp.shape)
+AlwaysAdmissible == AllAdmissible(inp)
 (* a setter outside the dependency set of a datum does not change what the next setup derives for it *)
 NonInterference == [][\A f \in {"vmB", "gamma", "gbe", "shape"} :
-                        (\E v \in VmBs \cup Gammas \cup Gbes \cup Shapes : inp' = [inp EXCEPT ![f] = v]) => PoolOf(inp') = PoolOf(inp)]_vars
+                        (\E v \in VmBs \cup Gammas \cup Gbes \cup Shapes : inp' = [inp EXCEPT ![f] = v]) => PoolOf(inp', 1) = PoolOf(inp, 1)]_vars
+(* what is derived for one phase does not depend on the other phase's inputs *)
+PhaseIsolation == [][\A f \in PhaseTwoFields :
+                        (\E v \in VmBs \cup Gammas \cup Sites \cup Shapes : inp' = [inp EXCEPT ![f] = v])
+                           => PoolOf(inp', 1) = PoolOf(inp, 1) /\ GibbsOf(inp', 1) = GibbsOf(inp, 1) /\ FactorsOf(inp', 1, inp.gbe) = FactorsOf(inp, 1, inp.gbe)]_vars
 =============================================================================
